@@ -21,7 +21,7 @@ struct Tracked {
   Tracked() : val(0), magic(LIVE) { ++n_ctor; }
   explicit Tracked(uint64_t v) : val(v), magic(LIVE) { ++n_ctor; }
   Tracked(Tracked&& o) noexcept : val(o.val) {
-    if (magic == LIVE) { ++n_bad; printf("  construction over a live object (value %llu lost)\n", (unsigned long long)val); }   // storage of free cells is pre-filled with DEAD
+    if (magic == LIVE) { ++n_bad; printf("  construction over a live object (the old object is overwritten, never destroyed)\n"); }   // storage of free cells is pre-filled with DEAD
     if (o.magic != LIVE) { ++n_bad; printf("  move from a dead/moved-from object\n"); }
     magic = LIVE; o.magic = MOVED; ++n_ctor;
   }
@@ -122,6 +122,7 @@ int main(int argc, char** argv) {
       n_ctor = n_dtor = 0; }
     n_ctor = n_dtor = 0;
   }
+  if (fails) { printf("violation reproduced\n"); return 1; }     // the follow-up would only add noise (or hang on a corrupted ring)
   if (op != 7) {
     // the queue must stay usable for strong operations: refill to capacity, then drain in FIFO order
     what = "follow-up try_push_strong / try_pop_strong";
